@@ -83,6 +83,7 @@ def check(facts, rep, tier, cfg):
     rep.floor("C13.R10", "credit obligations of the bridge", k10, 1)
     rep.rule("C13.S7", "no new process-wide mutable state (static cell / lock / once-cell) in the files this property is anchored in")
     import whomay
+    whomay.check(facts, rep, "C13.S7", "C13")
     whomay.check_new_statics(facts, rep, "C13.S7", "C13")
     whomay.check_new_trait_methods(facts, rep, "C13.S7", "C13")
 
